@@ -219,3 +219,25 @@ Theorem C17_copy_theorems_cover_partialstruct : forall L target c, PS.fx_errnil 
              snapshot (write (h ++ t) a cell) (VStruct fin) = snapshot h (VStruct fin)).
 Proof. exact Gengo.Proofs.Generators.copy_as_transfer. Qed.
 Print Assumptions C17_copy_theorems_cover_partialstruct.
+
+(* ---- deepcopy as an instance of the pipeline's abstract generator (Model/Generators.v): gengo.Execute's per-package
+   loop over the sorted, dispatched types with the state g.processed kept between the calls is [gen_deepcopy] of this
+   file on that package alone, from the empty processed set, printed ([print_method]: the text of the templates, a
+   parameter).  A panic / unbounded recursion of the model is a call that never returns.  Consequences: Props/C05.v
+   (C05_deepcopy_fresh_per_package), Props/C04.v (C04_fixed_point_with_deepcopy). ---- *)
+Require Gengo.Model.Pipeline Gengo.Proofs.GeneratorsPipe.
+
+Theorem C17_is_pipeline_generator :
+  forall fx graph vis print_method fuel (E : Gengo.Model.Pipeline.env) p,
+    let g := GN.deepcopy_gen fx graph vis print_method fuel in
+    let called := Gengo.Proofs.GeneratorsPipe.called fx graph vis print_method fuel E p in
+    (forall t, In t called ->
+       exists d, lookup (graph p) (Gengo.Model.Pipeline.ty_name t) = Some d /\ enabled (graph p) d = true) ->
+    match gen_deepcopy fuel fx (graph p) (map Gengo.Model.Pipeline.ty_name called) (vis p) with
+    | Ok ms => Gengo.Model.Pipeline.go_out (Gengo.Model.Pipeline.gen_run E g p) = Gengo.Model.Pipeline.Done /\
+               Gengo.Model.Pipeline.go_body (Gengo.Model.Pipeline.gen_run E g p) = GN.print_methods print_method ms /\
+               Gengo.Model.Pipeline.go_ignore (Gengo.Model.Pipeline.gen_run E g p) = false
+    | _ => Gengo.Model.Pipeline.go_out (Gengo.Model.Pipeline.gen_run E g p) = Gengo.Model.Pipeline.Died
+    end.
+Proof. exact Gengo.Proofs.GeneratorsPipe.deepcopy_gen_run. Qed.
+Print Assumptions C17_is_pipeline_generator.
